@@ -123,15 +123,18 @@ COMPOSE = ("whole-operation claims for shared/static pre-states of push_str/inse
            "obligations (called once, right argument, nothing written before, no allocator call outside) and the modular body contract; "
            "the composition itself is proved in verus/v_comp.rs and re-checked end to end on bounded sizes by verif_e2e.rs; trusted: that "
            "the relations `*_runs` of v_comp.rs say what the call-protocol obligations say")
-MEMMOVE = ("byte-exact result of the intra-buffer memmove in remove/insert_str: inline storage complete (all 2^128 buffers), heap storage "
-           "at concrete capacities only (class B) - CBMC does not terminate on a memmove inside an object of symbolic size")
+MEMMOVE = ("intra-buffer memmove of remove/insert_str: its ARGUMENTS (which range moves where) are proved for symbolic sizes and every "
+           "storage kind (remove/insert_str.memmove_moves_the_tail_*), and verus/v_move.rs derives the String text equation from them given "
+           "memmove's documented semantics; the byte-exact result with the REAL memmove executed is checked for inline storage (all 2^128 "
+           "buffers) and for heap storage at concrete capacities (class B) - CBMC does not terminate on a memmove inside an object of "
+           "symbolic size")
 
 prop("C01", level="proof",
      claim="Per-operation Hoare triples {WF /\\ requires} op {WF /\\ text' = String-semantics(text, args) /\\ result} discharged by Kani/CBMC on the real "
            "functions for arbitrary well-formed pre-states of every storage kind (symbolic capacity/length/refcount/stale bytes), with the "
            "sequence semantics of String written as the post-condition; V-HIST (Verus) lifts the triples to every finite history over any "
            "number of handles.",
-     functions=REPR_CORE + REPR_EDIT + REPR_CTOR + REPR_VIEW + LIB, verus=["v_hist", "v_comp"],
+     functions=REPR_CORE + REPR_EDIT + REPR_CTOR + REPR_VIEW + LIB, verus=["v_hist", "v_comp", "v_move"],
      trust=["String's method semantics transcribed from its documentation as sequence equations", COMPOSE],
      bounded_notes=[{"what": MEMMOVE}, {"what": "retain: text <= 6 bytes (loop unwound)"}, {"what": "extend/collect: <= 3 items"}],
      not_covered=["iterator-driven operations beyond 3 items (each item is one push under contract)", "32-bit targets"])
